@@ -146,6 +146,21 @@ def gen_plan(prop, seed, tier):
                         op["nnodes"] = {"closed-newton-cotes": 4, "open-newton-cotes": 4, "chebyshev": 4, "gauss-legendre": 2}[op["method"]] + rng.randint(0, 2)
             if rng.random() < fault_rate:
                 op["func_fault"] = rng.randint(0, 6)
+            if cls == "frac" and what in ("scalar", "function") and "gcurve" not in op and rng.random() < 0.3:
+                # number-class history: the same request on numerically equal float data (binary-fraction knots), with
+                # the same rule and size, is served first by the same thread; the rational request must still be exact
+                curve = _gen_curve(rng, "float", dims=(0,), maxp=4)
+                op["curve"] = dict(curve, cls="frac")
+                p = curve["p"]
+                op.pop("method", None), op.pop("nnodes", None)
+                if rng.random() < 0.6:
+                    op["method"] = rng.choice(["closed-newton-cotes", "open-newton-cotes"])
+                    op["nnodes"] = max(2, p + 2) + rng.randint(0, 2)
+                if what == "function":
+                    op["poly"] = op["poly"][: p + 1]
+                twin = dict(op, cls="float", curve=dict(curve, cls="float"), method=op.get("method", "open-newton-cotes"))
+                twin.pop("func_fault", None)
+                ops.append(twin)
         else:
             cls = rng.choice(["frac", "frac", "float"])
             c = _gen_curve(rng, cls)
